@@ -22,6 +22,8 @@ def main():
         d = os.path.join(SEEDED, sid)
         meta = json.load(open(os.path.join(d, "meta.json")))
         prop = meta["property"]
+        if meta.get("obsolete") and not args:
+            print(sid, "obsolete:", meta["obsolete"][:120]); results.setdefault(sid, {"property": prop})["obsolete"] = meta["obsolete"]; continue
         checks = checks_opt.split(",") if checks_opt else [prop] + [c for c in meta.get("also_check", []) if c != prop]
         r = sh(f"git -C /repo apply {d}/patch.diff")
         if r.returncode != 0:
